@@ -36,6 +36,7 @@ type siteInfo struct {
 	pos    map[string]PosAV     // token.Pos fields
 	val    map[string]ssa.Value // values stored by the literal
 	stores map[string]*ssa.Store
+	all    map[string][]*ssa.Store // every store to the field of this allocation, in block order
 }
 
 func (w *World) sites() []*siteInfo {
@@ -51,7 +52,7 @@ func (w *World) sites() []*siteInfo {
 		if ns == nil {
 			continue
 		}
-		si := &siteInfo{al: al, ns: ns, env: v.SiteEnv(al), pos: map[string]PosAV{}, val: map[string]ssa.Value{}, stores: map[string]*ssa.Store{}}
+		si := &siteInfo{al: al, ns: ns, env: v.SiteEnv(al), pos: map[string]PosAV{}, val: map[string]ssa.Value{}, stores: map[string]*ssa.Store{}, all: map[string][]*ssa.Store{}}
 		for _, u := range referrers(al) {
 			fa, ok := u.(*ssa.FieldAddr)
 			if !ok {
@@ -61,6 +62,7 @@ func (w *World) sites() []*siteInfo {
 				if st, ok := fu.(*ssa.Store); ok && st.Addr == ssa.Value(fa) {
 					si.val[fieldAddrName(fa)] = st.Val
 					si.stores[fieldAddrName(fa)] = st
+					si.all[fieldAddrName(fa)] = append(si.all[fieldAddrName(fa)], st)
 				}
 			}
 		}
